@@ -203,7 +203,17 @@ int main(int argc, char** argv)
         vrf::count("functor_invocations", functor_calls.load());
         vrf::count("reads", nreads);
         vrf::count("read_modify_pairs_overlapping_in_time", overlapped);
-        if (r % 4000 == 0) vrf::sample(pj);
+        if (r % 4000 == 0) {
+            std::string obs = "{\"final_log\":" + vrf::jnums(fa) + ",\"snapshots_seen_by_readers\":[";
+            bool first = true;
+            for (auto& v : reads)
+                for (auto& rd : v) {
+                    obs += std::string(first ? "" : ",") + "{\"t\":" + std::to_string(rd.thread) + ",\"call\":" + std::to_string(rd.call) + ",\"ret\":" + std::to_string(rd.ret) + ",\"log\":" + vrf::jnums(rd.seen) + "}";
+                    first = false;
+                }
+            obs += "],\"schedule_signature\":\"" + std::to_string(R.sched_sig) + "\"}";
+            vrf::sample("{\"program\":" + pj + ",\"observed\":" + obs + "}");
+        }
     }
     vrf::finish();
 }
